@@ -56,6 +56,21 @@ def check_set_result(chk, prog, fns):
             return state
         rets = []
 
+        def rf(state, cond, truth, blk):
+            # a result flag tested as a condition (replaced = probe(..); if (replaced) ..): its truth value on that edge
+            if isinstance(truth, tuple):
+                return state
+            c_ = X.strip(cond)
+            neg = False
+            while c_ is not None and c_.get("k") == "un" and c_.get("op") == "!":
+                neg = not neg
+                c_ = X.strip(c_["ch"][0])
+            if c_ is not None and c_.get("k") == "ref" and c_.get("rk") == "local" and not c_.get("tp"):
+                if any(isinstance(t, tuple) and t[0] == "val" and t[1] == c_["d"] for t in state):
+                    return state
+                return state | {("val", c_["d"], 1 if (truth != neg) else 0)}
+            return state
+
         def join(a, b):
             # reached-effects are may-facts (union); constants are must-facts (intersection)
             eff = {t for t in a | b if not isinstance(t, tuple)}
@@ -72,11 +87,11 @@ def check_set_result(chk, prog, fns):
                             cv = t[2]
                 rets.append((x, cv, state))
         # path-sensitivity for the single-result idiom: one pass per effect, each pruned to the paths that reach it
-        flow.forward(cfg, frozenset(), tr, join=join, visit=vis)
+        flow.forward(cfg, frozenset(), tr, refine=rf, join=join, visit=vis)
         if any(cv is None for _, cv, _ in rets):
             # the returned local's value differs per path: evaluate per incoming edge of the return block
             rets2 = []
-            ins = flow.forward(cfg, frozenset(), tr, join=join)
+            ins = flow.forward(cfg, frozenset(), tr, refine=rf, join=join)
             for x, cv, st in rets:
                 if cv is not None:
                     rets2.append((x, cv, st))
